@@ -224,9 +224,9 @@ LayerLoop(vbzLayers, ucats, cids, nd, agg, j, start, end, mut) ==
 ZoneRow(e, i, start, end) ==
   IF e.dim = 2
   THEN LET r == SingleZone2D(Slice(e.vbz[1], start, end), e.ucats, e.cids, e.nd, e.variant, e.mut)
-       IN [zone |-> e.uz[i], total |-> r.total,
+       IN [zone |-> e.uz[i], total |-> r.total, slice |-> Slice(e.vbz[1], start, end), breaks |-> r.breaks,
            entries |-> [k \in 1..Len(r.counts) |-> [cat |-> r.counts[k].cat, val |-> IntQ(r.counts[k].count)]]]
-  ELSE [zone |-> e.uz[i], total |-> 0,
+  ELSE [zone |-> e.uz[i], total |-> 0, slice |-> <<>>, breaks |-> <<>>,
         entries |-> LayerLoop(e.vbz, e.ucats, e.cids, e.nd, e.agg, 1, start, end, e.mut)]
 RECURSIVE ZoneLoop(_, _, _)
 ZoneLoop(e, i, start) ==
